@@ -638,7 +638,19 @@ func checkDeadlineSources(c *Ctx, r *Report) {
 		var dl *ssa.Call
 		var kind string
 		var all []*ssa.Call
-		for _, f := range append([]*ssa.Function{fn}, AnonFuncsDeep(fn)...) {
+		own := map[*ssa.Function]bool{fn: true}
+		bodies := []*ssa.Function{fn}
+		for _, h := range tailHelpers(fn) {
+			// the wait (timer + select) moved into a helper whose results the operation returns as they are
+			own[h] = true
+			bodies = append(bodies, h)
+		}
+		var scanFns []*ssa.Function
+		for _, b := range bodies {
+			scanFns = append(scanFns, b)
+			scanFns = append(scanFns, AnonFuncsDeep(b)...)
+		}
+		for _, f := range scanFns {
 			for _, ci := range callInstrs(f) {
 				call, ok := ci.(*ssa.Call)
 				if !ok {
@@ -648,12 +660,12 @@ func checkDeadlineSources(c *Ctx, r *Report) {
 					switch o.Pkg().Path() + "." + o.Name() {
 					case "context.WithTimeout":
 						all = append(all, call)
-						if f == fn {
+						if own[f] {
 							dl, kind = call, "ctx"
 						}
 					case "time.NewTimer", "time.After":
 						all = append(all, call)
-						if f == fn {
+						if own[f] {
 							dl, kind = call, "timer"
 						}
 					}
@@ -687,7 +699,7 @@ func checkDeadlineSources(c *Ctx, r *Report) {
 		// the wait: for timers, the spawner selects on the timer channel; for ctx, ctx reaches every ctx-taking call
 		if kind == "timer" {
 			waits := false
-			allInstrs(fn, func(in ssa.Instruction) {
+			allInstrs(dl.Parent(), func(in ssa.Instruction) {
 				if sel, ok := in.(*ssa.Select); ok && sel.Blocking {
 					for _, st := range sel.States {
 						if f, base, ok := fieldLoad(st.Chan); ok && f.Name() == "C" && base == ssa.Value(dl) {
@@ -913,41 +925,44 @@ func checkTimeoutClasses(c *Ctx, r *Report) {
 			continue
 		}
 		ok := false
-		allInstrs(fn, func(in ssa.Instruction) {
-			sel, isSel := in.(*ssa.Select)
-			if !isSel {
-				return
-			}
-			for i, st := range sel.States {
-				isTimer := false
-				if f, _, isLoad := fieldLoad(st.Chan); isLoad && f.Name() == "C" {
-					isTimer = true
+		for _, body := range append([]*ssa.Function{fn}, tailHelpers(fn)...) {
+			fn := body
+			allInstrs(fn, func(in ssa.Instruction) {
+				sel, isSel := in.(*ssa.Select)
+				if !isSel {
+					return
 				}
-				if call, isCall := st.Chan.(*ssa.Call); isCall {
-					if o := CalleeObj(call); o != nil && o.Name() == "After" {
+				for i, st := range sel.States {
+					isTimer := false
+					if f, _, isLoad := fieldLoad(st.Chan); isLoad && f.Name() == "C" {
 						isTimer = true
 					}
-					// the Done channel of a context that carries the operation's deadline
-					if call.Call.IsInvoke() && call.Call.Method.Name() == "Done" && isContextType(call.Call.Value.Type()) {
-						if kind, src := ctxOrigin(call.Call.Value, 0); kind == "with-timeout" {
-							if cc, ok := src.(*ssa.Call); ok {
-								if o := CalleeObj(cc); o != nil && (o.Name() == "WithTimeout" || o.Name() == "WithDeadline") {
-									isTimer = true
+					if call, isCall := st.Chan.(*ssa.Call); isCall {
+						if o := CalleeObj(call); o != nil && o.Name() == "After" {
+							isTimer = true
+						}
+						// the Done channel of a context that carries the operation's deadline
+						if call.Call.IsInvoke() && call.Call.Method.Name() == "Done" && isContextType(call.Call.Value.Type()) {
+							if kind, src := ctxOrigin(call.Call.Value, 0); kind == "with-timeout" {
+								if cc, ok := src.(*ssa.Call); ok {
+									if o := CalleeObj(cc); o != nil && (o.Name() == "WithTimeout" || o.Name() == "WithDeadline") {
+										isTimer = true
+									}
 								}
 							}
 						}
 					}
-				}
-				if !isTimer {
-					continue
-				}
-				for _, b := range fn.Blocks {
-					if idx, isCase := selectCaseOf(b, sel); isCase && idx == i && retWrapsOnBlock(b, "ErrTimeoutError") {
-						ok = true
+					if !isTimer {
+						continue
+					}
+					for _, b := range fn.Blocks {
+						if idx, isCase := selectCaseOf(b, sel); isCase && idx == i && retWrapsOnBlock(b, "ErrTimeoutError") {
+							ok = true
+						}
 					}
 				}
-			}
-		})
+			})
+		}
 		r.Check(ok, rule, shortFn(fn)+" timer branch", c.Pos(fn.Pos()), "timer -> ErrTimeoutError",
 			"the timer case of the operation does not return an error wrapping ErrTimeoutError")
 	}
@@ -1174,4 +1189,52 @@ func sameFieldValue(a, b ssa.Value) bool {
 	fa, ba, oka := fieldLoad(a)
 	fb, bb, okb := fieldLoad(b)
 	return oka && okb && fa == fb && ba == bb
+}
+
+// tailHelpers: the unexported functions of fn's package that fn calls exactly once, outside any loop, and whose
+// results it returns unchanged (`return c.await(...)`): the tail of the operation moved into a helper.
+func tailHelpers(fn *ssa.Function) []*ssa.Function {
+	var out []*ssa.Function
+	for _, ci := range callInstrs(fn) {
+		call, ok := ci.(*ssa.Call)
+		if !ok {
+			continue
+		}
+		h := call.Call.StaticCallee()
+		if h == nil || h.Pkg != fn.Pkg || h == fn || h.Object() == nil || h.Object().Exported() || len(h.Blocks) == 0 || len(staticCallsTo(fn, h)) != 1 || inLoop(call.Block()) {
+			continue
+		}
+		returned := false
+		allInstrs(fn, func(in ssa.Instruction) {
+			ret, isRet := in.(*ssa.Return)
+			if !isRet || len(ret.Results) == 0 {
+				return
+			}
+			all := true
+			for i, rv := range ret.Results {
+				want := resultOf(call, i)
+				if len(ret.Results) == 1 {
+					want = call
+				}
+				got := rv
+				if u, isU := rv.(*ssa.UnOp); isU { // defer-spilled result
+					if a, isA := u.X.(*ssa.Alloc); isA {
+						if v := lastStoreBefore(a, u); v != nil {
+							got = v
+						}
+					}
+				}
+				if got != want {
+					all = false
+				}
+			}
+			if all {
+				returned = true
+			}
+		})
+		if returned {
+			out = append(out, h)
+		}
+	}
+	return out
 }
